@@ -85,6 +85,21 @@ def run(ctx):
         ctx.maxobs("relerr%s.W z - lambda" % tag, eb)
         ok = c.require(ea <= tol and eb <= tol, key + ":Wz=W^-Ts=lambda",
                        "W z = W^-T s = lambda violated: rel err %.3g (W^-T s), %.3g (W z)" % (ea, eb))
+        # the same contract through the library's own applicator: misc.scale(z, W) and misc.scale(s, W, 'T', 'I') are how a
+        # caller obtains W z and W^-T s from the dictionary (all four flag pairs are applied to both vectors)
+        if ok and key.startswith(("compute_scaling", "update_scaling")):
+            for vec_, nm in ((z, "z"), (s, "s")):
+                for tr in ("N", "T"):
+                    for inv in ("N", "I"):
+                        xm = to_matrix(cone.symmetrize(vec_, dims))
+                        misc.scale(xm, W, trans=tr, inverse=inv)
+                        want = cone.W_apply(Wn, cone.symmetrize(vec_, dims), tr, inv)
+                        got = cone.symmetrize(np.array(list(xm), dtype=float), dims)
+                        er = float(np.linalg.norm(got - want)) / max((nWi if inv == "I" else nW) * cone.snrm2(vec_, dims), 1e-300)
+                        ctx.count("a.scale-applied-to-W")
+                        if not c.require(er <= tol, key + ":misc.scale-disagrees-with-W",
+                                         "misc.scale(%s, W, trans=%r, inverse=%r) differs from the operator defined by W: rel err %.3g" % (nm, tr, inv, er)):
+                            return False
         # lambda itself must be in the cone (it is the scaled point)
         return ok
 
